@@ -221,7 +221,7 @@ fn helper_op(rng: &mut Rng, fresh: bool) -> Op {
 /// A family of related operations, shaped so that state leaking from one call to another would show.
 fn family(rng: &mut Rng, corpus: &Corpus, deep_levels: (usize, usize), out: &mut Vec<Op>) -> &'static str {
     let fresh = rng.chance(1, 4);
-    match rng.weighted(&[14, 14, 10, 8, 8, 8, 6, 6, 5, 5, 6, 3, 6]) {
+    match rng.weighted(&[14, 14, 10, 8, 8, 8, 6, 6, 5, 5, 6, 2, 6]) {
         0 => {
             // same rule x different data (corpus rule)
             let (r, d) = rng.pick(&corpus.cases).clone();
@@ -405,7 +405,7 @@ fn family(rng: &mut Rng, corpus: &Corpus, deep_levels: (usize, usize), out: &mut
         11 => {
             // wide rules: hundreds of distinct paths / keys / strings in one process (tables with a
             // capacity, caches that evict, interning that resets)
-            let n = *rng.pick(&[70usize, 300, 600, 1300]);
+            let n = *rng.pick(&[70usize, 300, 300, 520]);
             let tag = rng.below(1000);
             let mut d = serde_json::Map::new();
             for i in 0..8 {
@@ -831,7 +831,7 @@ fn child_body(run: &E1Run, isos: &[Vec<Arc<Iso>>], raw_fd: i32) -> RunReport {
         threads: &run.threads,
         stack_kb: &run.stack_kb,
         fault: run.fault.clone(),
-        step_cap: if run.alloc_yield { STEP_CAP * 10 } else { STEP_CAP },
+        step_cap: if run.alloc_yield { STEP_CAP * 3 } else { STEP_CAP },
         alloc_yield: run.alloc_yield,
         watchdog: Duration::from_secs(10),
     };
